@@ -55,7 +55,9 @@ func c11Run(c *core.Case, o *core.Outcome) {
 	r := c.Rng("gauss")
 	// (ticks shorter than a millisecond are as legal as any: the flag, the config file and the calculator take any positive duration)
 	freqs := []time.Duration{100 * time.Millisecond, time.Second, 5 * time.Second, time.Minute, time.Minute, 5 * time.Minute, 10 * time.Minute,
-		100 * time.Microsecond, 250 * time.Microsecond, 500 * time.Microsecond, 1500 * time.Microsecond, 7 * time.Millisecond}
+		100 * time.Microsecond, 250 * time.Microsecond, 500 * time.Microsecond, 1500 * time.Microsecond, 7 * time.Millisecond,
+		// (and ticks that are no whole number of tenths of a second)
+		150 * time.Millisecond, 250 * time.Millisecond, 1250 * time.Millisecond}
 	worst := 0.0
 	for si := 0; si < p.Sets && o.Verdict != core.Violated; si++ {
 		f := freqs[r.IntN(len(freqs))]
